@@ -150,7 +150,9 @@ func PayoutProfile(seed int64, out *Recorder, nOps int) *Chain {
 				if rng.Intn(5) == 0 {
 					part = cur.Shares
 				}
-				tctx := ctx.WithBlockTime(ctx.BlockTime().Add(time.Duration(rng.Intn(3)*(i+1)) * time.Second))
+				// completion times collide on purpose: entries of different validators then share one slice of the completion queue
+				_ = i
+				tctx := ctx.WithBlockTime(ctx.BlockTime().Add(time.Duration(rng.Intn(2)) * time.Second))
 				catch(func() { sk.Undelegate(tctx, addr, d.GetValidatorAddr(), part) })
 			}
 		}
